@@ -43,14 +43,29 @@ pub fn options(preset: Preset, sorted: bool) -> Options {
     o
 }
 
+/// render under a preset. Called outside `guarded`, a panicking renderer yields the text
+/// `PANIC(render): ...` (which no oracle accepts as output) instead of taking the check down
 pub fn render(e: &Element<String>, preset: Preset, sorted: bool) -> String {
-    e.to_serde_struct(&options(preset, sorted))
+    if GUARD_DEPTH.with(|d| d.get()) > 0 {
+        return e.to_serde_struct(&options(preset, sorted));
+    }
+    match guarded(|| e.to_serde_struct(&options(preset, sorted))) {
+        Ok(t) => t,
+        Err(p) => format!("PANIC(render): {}", p),
+    }
+}
+
+thread_local! {
+    static GUARD_DEPTH: std::cell::Cell<u32> = const { std::cell::Cell::new(0) };
 }
 
 /// run `f`, turning a panic into `Err(message)`; the default panic hook must be silenced once per
 /// process with `silence_panics`
 pub fn guarded<T>(f: impl FnOnce() -> T) -> Result<T, String> {
-    match std::panic::catch_unwind(std::panic::AssertUnwindSafe(f)) {
+    GUARD_DEPTH.with(|d| d.set(d.get() + 1));
+    let r = std::panic::catch_unwind(std::panic::AssertUnwindSafe(f));
+    GUARD_DEPTH.with(|d| d.set(d.get().saturating_sub(1)));
+    match r {
         Ok(v) => Ok(v),
         Err(p) => Err(if let Some(s) = p.downcast_ref::<&str>() {
             s.to_string()
@@ -78,32 +93,86 @@ pub fn silence_panics() {
 /// the observation C05 compares: both renderings of a history, or the error
 pub fn observe_history<S: AsRef<[u8]>>(docs: &[S]) -> String {
     match guarded(|| parse_all(docs)) {
-        Ok(Ok(e)) => match guarded(|| {
-            let mut o = render(&e, Preset::QuickXml, false);
-            o.push('\u{1}');
-            o.push_str(&render(&e, Preset::QuickXml, true));
-            o.push('\u{1}');
-            o.push_str(&render(&e, Preset::SerdeXmlRs, false));
-            o.push('\u{1}');
-            o.push_str(&e.to_serde_struct(&Options::quick_xml_de().derive("Debug, Clone, Debug, PartialEq, Clone")));
-            // public accessors used after the last rendering, right before the tree is dropped:
-            // whatever they leave behind must not influence the next call
-            fn touch(e: &Element<String>) -> usize {
-                let mut n = e.formatted_name().len();
-                for c in e.children() {
-                    n += touch(c.inner_t());
-                }
-                n
-            }
-            let _ = touch(&e);
-            o
-        }) {
-            Ok(o) => o,
-            Err(p) => format!("PANIC(render): {}", p),
-        },
+        Ok(Ok(e)) => observe_element(&e),
         Ok(Err(e)) => format!("ERR: {}", e),
         Err(p) => format!("PANIC(parse): {}", p),
     }
+}
+
+fn observe_element(e: &Element<String>) -> String {
+    match guarded(|| {
+        let mut o = render(e, Preset::QuickXml, false);
+        o.push('\u{1}');
+        o.push_str(&render(e, Preset::QuickXml, true));
+        o.push('\u{1}');
+        o.push_str(&render(e, Preset::SerdeXmlRs, false));
+        o.push('\u{1}');
+        o.push_str(&e.to_serde_struct(&Options::quick_xml_de().derive("Debug, Clone, Debug, PartialEq, Clone")));
+        // public accessors used after the last rendering, right before the tree is dropped:
+        // whatever they leave behind must not influence the next call
+        fn touch(e: &Element<String>) -> usize {
+            let mut n = e.formatted_name().len();
+            for c in e.children() {
+                n += touch(c.inner_t());
+            }
+            n
+        }
+        let _ = touch(e);
+        o
+    }) {
+        Ok(o) => o,
+        Err(p) => format!("PANIC(render): {}", p),
+    }
+}
+
+/// the same history, built step by step while copies of every intermediate value are kept alive and
+/// rendered in an adverse order (`copies_first`: a copy is rendered right after the value it was
+/// taken from was extended, before that value itself is ever rendered). Returns one observation
+/// per prefix of the history: entry k must equal `observe_history(&docs[..=k])`
+pub fn observe_prefixes_with_copies<S: AsRef<[u8]>>(docs: &[S], copies_first: bool) -> Vec<String> {
+    let mut out = Vec::new();
+    let first = match guarded(|| parse(docs[0].as_ref())) {
+        Ok(Ok(e)) => e,
+        Ok(Err(e)) => return vec![format!("ERR: {}", e)],
+        Err(p) => return vec![format!("PANIC(parse): {}", p)],
+    };
+    let mut kept: Vec<Element<String>> = Vec::new();
+    let mut cur = first;
+    for d in &docs[1..] {
+        let copy = cur.clone();
+        if !copies_first {
+            let _ = guarded(|| render_all(&copy));
+        }
+        cur = match guarded(|| extend(cur, d.as_ref())) {
+            Ok(Ok(e)) => e,
+            Ok(Err(e)) => {
+                out.push(format!("ERR: {}", e));
+                return out;
+            }
+            Err(p) => {
+                out.push(format!("PANIC(parse): {}", p));
+                return out;
+            }
+        };
+        if copies_first {
+            let _ = guarded(|| render_all(&copy));
+        } else {
+            let _ = guarded(|| render_all(&cur));
+        }
+        kept.push(copy);
+    }
+    if !copies_first {
+        // the final value first, then the copies from the newest to the oldest
+        let last = observe_element(&cur);
+        let mut rest: Vec<String> = kept.iter().rev().map(observe_element).collect();
+        rest.reverse();
+        out = rest;
+        out.push(last);
+    } else {
+        out = kept.iter().map(observe_element).collect();
+        out.push(observe_element(&cur));
+    }
+    out
 }
 
 /// unrelated library calls (accepted and rejected inputs) used to disturb any state kept between calls
@@ -180,6 +249,22 @@ pub fn repeat_history_opt(docs: &[String], in_thread: usize, fresh_threads: usiz
             noise();
         }
         push(observe_history(docs));
+    }
+    if in_thread > 0 && !docs.is_empty() {
+        // copies of intermediate values kept alive and rendered while the history is built
+        for copies_first in [true, false] {
+            let obs = observe_prefixes_with_copies(docs, copies_first);
+            for (k, o) in obs.iter().enumerate() {
+                if k + 1 == docs.len() {
+                    push(o.clone());
+                } else if !o.starts_with("ERR") && !o.starts_with("PANIC") {
+                    let fresh = observe_history(&docs[..=k]);
+                    if *o != fresh {
+                        push(format!("[a copy of the value after {} of {} documents, kept while the value was extended, renders differently from a fresh run over these documents]\n{}", k + 1, docs.len(), o));
+                    }
+                }
+            }
+        }
     }
     for _ in 0..fresh_threads {
         let d = docs.to_vec();
